@@ -446,13 +446,14 @@ def amber_sg_charges():
     return _FFSETS
 
 
-def oracle(case, obs, check_charge=False):
+def oracle(case, obs, check_charge=False, cls_rel=None, with_sulfur=None):
     """Independent check of the property on observed results.
-    Returns [(signature, message)]."""
+    Returns [(signature, message)].  cls_rel: a classification made elsewhere (final geometry of the returned
+    model, see rebuilt_sulfur_check) instead of the input geometry; with_sulfur: ids of units that have a sulfur there."""
     if isinstance(obs, str):
         return [({"site": "pipeline", "field": "exception", "condition": obs.split(":")[0]}, f"run failed: {obs[:200]}")]
     bad = []
-    cls, rel = classify(case)
+    cls, rel = cls_rel if cls_rel is not None else classify(case)
     units = {u["id"]: u for u in case["units"]}
     site = "Biomolecule.update_ss_bridges"
     for i, c in cls.items():
@@ -477,11 +478,11 @@ def oracle(case, obs, check_charge=False):
                 bad.append(({"site": "Biomolecule.add_hydrogens", "field": "HG", "condition": "isolated"}, f"unit {i}: free CYS without HG"))
             if ff != "CYS" or pt:
                 bad.append(({"site": "Biomolecule.update_ss_bridges/CYS.set_state", "field": "ffname", "condition": "isolated"}, f"unit {i}: free CYS named ..{ff}, CYX patch {pt}"))
-            if check_charge and q is not None and has_sg(u) and q not in amber_sg_charges()[1]:
+            if check_charge and q is not None and (has_sg(u) or with_sulfur is not None) and q not in amber_sg_charges()[1]:
                 bad.append(({"site": "Biomolecule.apply_force_field", "field": "SG charge", "condition": "isolated"}, f"unit {i}: SG charge {q} is not a CYS charge"))
         # exclusivity in the wide sense: whoever is flagged points at a sulfur within the limit
         if p is not None:
-            if p < 0 or not has_sg(u) or (i, p) not in rel or rel[(i, p)] is False:
+            if p < 0 or not (has_sg(u) if with_sulfur is None else i in with_sulfur) or (i, p) not in rel or rel[(i, p)] is False:
                 bad.append(({"site": site, "field": "ss_bonded_partner", "condition": "partner-out-of-range"}, f"unit {i}: partner {p} is not a sulfur within 2.5 A"))
         if b != (p is not None):
             bad.append(({"site": site, "field": "ss_bonded_partner", "condition": "flag-without-partner"}, f"unit {i}: ss_bonded={b} partner={p}"))
@@ -493,6 +494,107 @@ def hypothesis_view(case, obs):
     cls, _ = classify(case)
     stub = {u["id"] for u in case["units"] if u["variant"] == "stub"}  # outside the guard of isolated_free
     return {i: obs[i][:5] for i, c in cls.items() if c[0] != "other" and i not in stub}
+
+
+# --------------------------------------------------------------------------
+# sulfurs that are not in the input: the property speaks of the sulfur atoms of the returned model
+
+
+def final_sulfurs(bio, case):
+    """{unit id: (x, y, z) of SG on the returned biomolecule} (units found by CA position)"""
+    from pdb2pqr import aa
+
+    bykey = {}
+    for r in bio.residues:
+        if isinstance(r, aa.CYS):
+            ca = r.get_atom("CA")
+            if ca is not None:
+                bykey[(round(ca.x * 1000), round(ca.y * 1000), round(ca.z * 1000))] = r
+    out = {}
+    for u in case["units"]:
+        r = bykey.get(unit_ca(u))
+        sg = r.get_atom("SG") if r is not None else None
+        if sg is not None:
+            out[u["id"]] = (sg.x, sg.y, sg.z)
+    return out
+
+
+def classify_final(case, sul, margin=1e-3):
+    """classification by the FINAL sulfur positions; distances within `margin` of the limit are not judged"""
+    ids = sorted(sul)
+    rel = {}
+    for i in ids:
+        for j in ids:
+            if i != j:
+                d = sum((a - b) ** 2 for a, b in zip(sul[i], sul[j])) ** 0.5
+                rel[(i, j)] = True if d < 2.5 - margin else (False if d > 2.5 + margin else None)
+    nb = {i: [j for j in ids if j != i and rel[(i, j)] is True] for i in ids}
+    und = {i: any(rel[(i, j)] is None for j in ids if j != i) for i in ids}
+    cls = {}
+    for u in case["units"]:
+        i = u["id"]
+        if i not in sul:
+            cls[i] = ("other",)
+        elif und[i]:
+            cls[i] = ("other",)
+        elif not nb[i]:
+            cls[i] = ("isolated",)
+        elif len(nb[i]) == 1 and not und[nb[i][0]] and nb[nb[i][0]] == [i]:
+            cls[i] = ("pair", nb[i][0])
+        else:
+            cls[i] = ("other",)
+    return cls, rel
+
+
+def gen_rebuilt_case(rng):
+    """a driver-mode case in which one or more cysteines arrive WITHOUT their SG record (side chain truncated at
+    CB): repair_heavy rebuilds the sulfur from the topology.  --nodebump --noopt: nothing moves after the repair,
+    so the sulfur positions of the returned model are those any detection after the repair saw."""
+    for _ in range(50):
+        pattern = rng.choice(["pair", "pair", "pair+free", "pair+far2", "two_pairs", "free_only"])
+        pclass = rng.choice(["typical", "typical", "m0.5", "p0.5", "just_in", "just_out"] if "typical" in PAIR_CLASSES else list(PAIR_CLASSES))
+        pts, pattern_, pclass_ = gen_geometry(rng, pattern, pclass)
+        units = [{"id": i, "kind": "single", "variant": "full", "name": "CYS", "hg": False, "rot": 0, "sg": p} for i, p in enumerate(pts)]
+        if orient_units(rng, units) >= 900 * 900:
+            break
+    k = rng.choice([1, 1, 1, 2, len(units)])
+    for u in rng.sample(units, min(k, len(units))):
+        u["variant"] = "noSG"
+    ids = list(range(len(units)))
+    rng.shuffle(ids)
+    for u, i in zip(units, ids):
+        u["id"] = i
+    units.sort(key=lambda u: u["id"])
+    ff = rng.choice(["AMBER", "AMBER", "PARSE", "CHARMM", "SWANSON", "TYL06", "PEOEPB"])
+    return {"units": units, "pattern": pattern_, "pclass": pclass_, "mode": "driver", "layout": gen_layout(rng, units), "extra": [f"--ff={ff}", "--nodebump", "--noopt"], "rebuilt": True}
+
+
+def rebuilt_sulfur_run(ctx, case):
+    """run one rebuilt-sulfur case; returns [(signature, message)] and a summary for the counts"""
+    obs, bio = run_driver(ctx, case)
+    if isinstance(obs, str) or bio is None:
+        return [], f"not-judged:{str(obs).split(':')[0]}"
+    sul = final_sulfurs(bio, case)
+    # the input sulfurs must still be where the input put them (nothing moves under --nodebump --noopt)
+    for u in case["units"]:
+        if has_sg(u) and u["id"] in sul and any(abs(a - b / 1000) > 5e-4 for a, b in zip(sul[u["id"]], u["sg"])):
+            return [], "not-judged:input-sulfur-moved"
+    cls, rel = classify_final(case, sul)
+    bad = oracle(case, obs, check_charge=False, cls_rel=(cls, rel), with_sulfur=set(sul))
+    kinds = sorted(c[0] for i, c in cls.items() if not has_sg({u["id"]: u for u in case["units"]}[i]))
+    return [(dict(sig, condition=sig["condition"] + ":sulfur-rebuilt-by-repair"), msg + f" (final sulfur positions of the returned model; units without an SG record in the input: {[u['id'] for u in case['units'] if not has_sg(u)]})") for sig, msg in bad], "rebuilt-unit-is:" + ",".join(kinds)
+
+
+def rebuilt_sulfur_check(ctx, n):
+    rng = ctx.rng
+    for _ in range(n):
+        b = gen_rebuilt_case(rng)
+        for c in (b, relayout(rng, b, 0)):
+            bad, summary = rebuilt_sulfur_run(ctx, c)
+            ctx.count(f"rebuilt-sulfur:{summary}")
+            ctx.evaluated(("rebuilt",) + case_key(c), "pair" in summary)
+            for sig, msg in bad:
+                ctx.fail(sig, msg, slim(c))
 
 
 # --------------------------------------------------------------------------
@@ -800,7 +902,7 @@ def nontrivial(case):
 
 def slim(case):
     """JSON-able copy for replays"""
-    return {k: case[k] for k in ("units", "pattern", "pclass", "mode", "layout", "extra") if k in case}
+    return {k: case[k] for k in ("units", "pattern", "pclass", "mode", "layout", "extra", "rebuilt") if k in case}
 
 
 # --------------------------------------------------------------------------
@@ -1046,6 +1148,9 @@ def run(ctx):
         eobs = [run_direct(c) if c["mode"] == "direct" else (run_driver(ctx, c)[0], None) for c in extra]
         search(extra, eobs, egroups)
 
+    # ---- cysteines whose SG record is missing: the sulfur is rebuilt by repair_heavy; judged on the returned model
+    rebuilt_sulfur_check(ctx, 60 if ctx.thorough else 14)
+
     # ---- real structures
     for name in ["1AJJ.pdb"] + (["1BX8.pdb", "1A1P.pdb"] if ctx.thorough else ["1BX8.pdb"]):
         real_structure_check(ctx, name)
@@ -1112,6 +1217,11 @@ def replay(ctx, data):
         bad = ctx.failures[before:]
         print("replay:", "FAILS: " + bad[0]["what"] if bad else "passes")
         ctx.cleanup()
+        return 1 if bad else 0
+    if case.get("rebuilt"):
+        bad, summary = rebuilt_sulfur_run(ctx, case)
+        ctx.cleanup()
+        print("replay:", summary, "|", "FAILS: " + "; ".join(m for _s, m in bad[:3]) if bad else "passes")
         return 1 if bad else 0
     pairs = [case["a"], case["b"]] if case.get("metamorphic") else [case]
     views = []
